@@ -244,3 +244,202 @@ Theorem compile_markers_name_source_lines :
 Proof. exact MarkerLines.compile_markers_name_source_lines. Qed.
 Print Assumptions compile_markers_name_source_lines.
 
+
+(* ---- the converse: WHICH instructions have a marker (MarkerSites.v). No predicate on single instructions decides it
+   (no_instruction_predicate_decides_markers: a written step_end has a marker, an added one has none); the true rule is
+   positional. emit_program_sited: the -lm output is a word of a grammar: invented instructions | marker + the instruction of a
+   construct | marker + first data line of a text + its further lines | AutoVar command + marker + the test of its condition.
+   marker_rule / compile_marker_rule: every non-marker instruction either has a marker directly before it - naming the line of
+   a construct of the program that it shows - or has none and is invented (goto, goto_if after a compare, return / end, blank,
+   one of five fixed lines, a header label), a further data line of the same text, or the AutoVar command in front of its
+   condition's marker. tests_switches_cases_are_marked, generated_kinds_are_unmarked, lines_are_marked, commands_are_marked,
+   labels_are_marked, data_lines_marked_once. program_markers / marker_count: the markers in order and their number;
+   *_from_source: the multiset of markers is the multiset of the lines of the constructs of the source bodies. ---- *)
+From Coq Require Import Permutation. From Pory Require Import MarkerSites. Open Scope list_scope.
+Theorem emit_script_sited :
+  forall (p : text) (tl : list text) (name : text) (glob opt : bool) (body : list stmt) (is : list instr),
+  emit_script (Some p) tl name glob opt body = Ok is -> sited (body_constructs body) (script_label name glob) is.
+Proof. exact MarkerSites.emit_script_sited. Qed.
+Print Assumptions emit_script_sited.
+
+Theorem emit_program_sited :
+  forall (opt : bool) (p : text) (prog : program) (is : list instr),
+  emit_program_instrs opt (Some p) prog = Ok is -> sited (program_constructs prog) (header_label prog) is.
+Proof. exact MarkerSites.emit_program_sited. Qed.
+Print Assumptions emit_program_sited.
+
+Theorem marker_rule :
+  forall (opt : bool) (path : text) (prog : program) (is : list instr),
+  emit_program_instrs opt (Some path) prog = Ok is ->
+  forall (pre : list instr) (i : instr) (post : list instr),
+  is = pre ++ i :: post ->
+  notmarker i = true ->
+  (exists (pre' : list instr) (l : Z) (k : construct), pre = pre' ++ [IMarker l] /\ In k (program_constructs prog) /\ kline k = l /\ shows k i) \/
+  (forall (pre' : list instr) (l : Z), pre <> pre' ++ [IMarker l]) /\
+  (invented (header_label prog) i \/
+   (exists (pre' : list instr) (q : instr), pre = pre' ++ [q] /\ continues q i) \/ autovar_of (program_constructs prog) i post).
+Proof. exact MarkerSites.marker_rule. Qed.
+Print Assumptions marker_rule.
+
+Theorem script_marker_rule :
+  forall (path : text) (tl : list text) (name : text) (glob opt : bool) (body : list stmt) (is : list instr),
+  emit_script (Some path) tl name glob opt body = Ok is ->
+  forall (pre : list instr) (i : instr) (post : list instr),
+  is = pre ++ i :: post ->
+  notmarker i = true ->
+  (exists (pre' : list instr) (l : Z) (k : construct), pre = pre' ++ [IMarker l] /\ In k (body_constructs body) /\ kline k = l /\ shows k i) \/
+  (forall (pre' : list instr) (l : Z), pre <> pre' ++ [IMarker l]) /\
+  (invented (script_label name glob) i \/
+   (exists (pre' : list instr) (q : instr), pre = pre' ++ [q] /\ continues q i) \/ autovar_of (body_constructs body) i post).
+Proof. exact MarkerSites.script_marker_rule. Qed.
+Print Assumptions script_marker_rule.
+
+Theorem tests_switches_cases_are_marked :
+  forall (opt : bool) (path : text) (prog : program) (is : list instr),
+  emit_program_instrs opt (Some path) prog = Ok is ->
+  forall (pre : list instr) (i : instr) (post : list instr),
+  is = pre ++ i :: post -> is_test_or_case i = true -> exists (pre' : list instr) (l : Z), pre = pre' ++ [IMarker l].
+Proof. exact MarkerSites.tests_switches_cases_are_marked. Qed.
+Print Assumptions tests_switches_cases_are_marked.
+
+Theorem generated_kinds_are_unmarked :
+  forall (opt : bool) (path : text) (prog : program) (is : list instr),
+  emit_program_instrs opt (Some path) prog = Ok is ->
+  forall (pre : list instr) (i : instr) (post : list instr),
+  is = pre ++ i :: post -> is_generated_kind i = true -> forall (pre' : list instr) (l : Z), pre <> pre' ++ [IMarker l].
+Proof. exact MarkerSites.generated_kinds_are_unmarked. Qed.
+Print Assumptions generated_kinds_are_unmarked.
+
+Theorem lines_are_marked :
+  forall (opt : bool) (path : text) (prog : program) (is : list instr),
+  emit_program_instrs opt (Some path) prog = Ok is ->
+  forall (pre : list instr) (s : text) (post : list instr),
+  is = pre ++ ILine s :: post -> ~ In s fixed_lines -> exists (pre' : list instr) (l : Z), pre = pre' ++ [IMarker l].
+Proof. exact MarkerSites.lines_are_marked. Qed.
+Print Assumptions lines_are_marked.
+
+Theorem commands_are_marked :
+  forall (opt : bool) (path : text) (prog : program) (is : list instr),
+  emit_program_instrs opt (Some path) prog = Ok is ->
+  forall (pre : list instr) (c : cmd) (post : list instr),
+  is = pre ++ ICmd c :: post ->
+  (exists (pre' : list instr) (l : Z), pre = pre' ++ [IMarker l] /\ In (KCommand c) (program_constructs prog) /\ l = tline (ctok c)) \/
+  (forall (pre' : list instr) (l : Z), pre <> pre' ++ [IMarker l]) /\
+  (exists (l : leaf) (j : instr) (post' : list instr),
+     post = IMarker (lline l) :: j :: post' /\ In (KCond l) (program_constructs prog) /\ lpre l = Some c /\ shows (KCond l) j).
+Proof. exact MarkerSites.commands_are_marked. Qed.
+Print Assumptions commands_are_marked.
+
+Theorem labels_are_marked :
+  forall (opt : bool) (path : text) (prog : program) (is : list instr),
+  emit_program_instrs opt (Some path) prog = Ok is ->
+  forall (pre : list instr) (n : text) (g : bool) (post : list instr),
+  is = pre ++ ILabel n g :: post -> ~ header_label prog n g -> exists (pre' : list instr) (l : Z), pre = pre' ++ [IMarker l].
+Proof. exact MarkerSites.labels_are_marked. Qed.
+Print Assumptions labels_are_marked.
+
+Theorem data_lines_marked_once :
+  forall (opt : bool) (path : text) (prog : program) (is : list instr),
+  emit_program_instrs opt (Some path) prog = Ok is ->
+  forall (pre : list instr) (d c : text) (post : list instr),
+  is = pre ++ IData d c :: post ->
+  (exists (pre' : list instr) (l : Z) (x : textdef),
+     pre = pre' ++ [IMarker l] /\
+     In x (texts prog) /\
+     l = tline (xtok x) /\
+     d =
+     match xtype x with
+     | [] =>
+         t
+           (String.String (Ascii.Ascii true true false false true true true false)
+              (String.String (Ascii.Ascii false false true false true true true false)
+                 (String.String (Ascii.Ascii false true false false true true true false)
+                    (String.String (Ascii.Ascii true false false true false true true false)
+                       (String.String (Ascii.Ascii false true true true false true true false)
+                          (String.String (Ascii.Ascii true true true false false true true false) String.EmptyString))))))
+     | n :: l0 => n :: l0
+     end) \/ (exists (pre' : list instr) (c' : text), pre = pre' ++ [IData d c']).
+Proof. exact MarkerSites.data_lines_marked_once. Qed.
+Print Assumptions data_lines_marked_once.
+
+Theorem program_markers :
+  forall (opt : bool) (path : text) (prog : program) (is : list instr),
+  emit_program_instrs opt (Some path) prog = Ok is -> markers_of is = program_lines opt prog.
+Proof. exact MarkerSites.program_markers. Qed.
+Print Assumptions program_markers.
+
+Theorem script_markers :
+  forall (path : text) (tl : list text) (name : text) (glob opt : bool) (body : list stmt) (is : list instr),
+  emit_script (Some path) tl name glob opt body = Ok is -> markers_of is = script_lines opt body.
+Proof. exact MarkerSites.script_markers. Qed.
+Print Assumptions script_markers.
+
+Theorem marker_count :
+  forall (opt : bool) (path : text) (prog : program) (is is0 : list instr),
+  emit_program_instrs opt (Some path) prog = Ok is ->
+  emit_program_instrs opt None prog = Ok is0 ->
+  length (markers_of is) = length (program_lines opt prog) /\ length is = length is0 + length (program_lines opt prog).
+Proof. exact MarkerSites.marker_count. Qed.
+Print Assumptions marker_count.
+
+Theorem graph_sites_from_source :
+  forall (body : list stmt) (w : wst),
+  emit_graph body = Ok w -> Worklist.src_ok body -> Permutation (flat_map chunk_sites (finals w)) (block_sites body).
+Proof. exact MarkerSites.graph_sites_from_source. Qed.
+Print Assumptions graph_sites_from_source.
+
+Theorem script_markers_from_source :
+  forall (path : text) (tl : list text) (name : text) (glob opt : bool) (body : list stmt) (is : list instr),
+  emit_script (Some path) tl name glob opt body = Ok is -> Worklist.src_ok body -> Permutation (markers_of is) (map kline (block_sites body)).
+Proof. exact MarkerSites.script_markers_from_source. Qed.
+Print Assumptions script_markers_from_source.
+
+Theorem program_markers_from_source :
+  forall (opt : bool) (path : text) (prog : program) (is : list instr),
+  emit_program_instrs opt (Some path) prog = Ok is ->
+  Forall Worklist.src_ok (ProgWf.bodies_of (tops prog)) -> Permutation (markers_of is) (program_src_lines prog).
+Proof. exact MarkerSites.program_markers_from_source. Qed.
+Print Assumptions program_markers_from_source.
+
+Theorem program_marker_count_from_source :
+  forall (opt : bool) (path : text) (prog : program) (is : list instr),
+  emit_program_instrs opt (Some path) prog = Ok is ->
+  Forall Worklist.src_ok (ProgWf.bodies_of (tops prog)) -> length (markers_of is) = length (program_src_lines prog).
+Proof. exact MarkerSites.program_marker_count_from_source. Qed.
+Print Assumptions program_marker_count_from_source.
+
+Theorem compile_marker_rule :
+  forall (is_letter_hi is_digit_hi is_space_hi : N -> bool) (autovars : list (text * autovar)) (switches : list (text * text))
+    (env_errors : bool) (fc : fontcfg) (cli_font : text) (cli_maxlen : Z) (opt : bool) (path src out : text),
+  Compile.compile is_letter_hi is_digit_hi is_space_hi autovars switches env_errors fc cli_font cli_maxlen opt (Some path) src =
+  Compile.OutText out ->
+  exists (prog : program) (is : list instr),
+    parse_program autovars switches env_errors (parse_format fc cli_font cli_maxlen env_errors) (lex is_letter_hi is_digit_hi is_space_hi src) =
+    Parser.Ok prog /\
+    emit_program_instrs opt (Some path) prog = Ok is /\
+    out = print_instrs (Some path) is /\
+    markers_of is = program_lines opt prog /\
+    (forall (pre : list instr) (i : instr) (post : list instr),
+     is = pre ++ i :: post ->
+     notmarker i = true ->
+     (exists (pre' : list instr) (l : Z) (k : construct),
+        pre = pre' ++ [IMarker l] /\ In k (program_constructs prog) /\ kline k = l /\ shows k i) \/
+     (forall (pre' : list instr) (l : Z), pre <> pre' ++ [IMarker l]) /\
+     (invented (header_label prog) i \/
+      (exists (pre' : list instr) (q : instr), pre = pre' ++ [q] /\ continues q i) \/ autovar_of (program_constructs prog) i post)).
+Proof. exact MarkerSites.compile_marker_rule. Qed.
+Print Assumptions compile_marker_rule.
+
+Theorem compile_markers_from_source :
+  forall (is_letter_hi is_digit_hi is_space_hi : N -> bool) (autovars : list (text * autovar)) (switches : list (text * text))
+    (env_errors : bool) (fc : fontcfg) (cli_font : text) (cli_maxlen : Z) (opt : bool) (path src out : text),
+  Compile.compile is_letter_hi is_digit_hi is_space_hi autovars switches env_errors fc cli_font cli_maxlen opt (Some path) src =
+  Compile.OutText out ->
+  exists (prog : program) (is : list instr),
+    parse_program autovars switches env_errors (parse_format fc cli_font cli_maxlen env_errors) (lex is_letter_hi is_digit_hi is_space_hi src) =
+    Parser.Ok prog /\
+    emit_program_instrs opt (Some path) prog = Ok is /\
+    out = print_instrs (Some path) is /\ Permutation (markers_of is) (program_src_lines prog).
+Proof. exact MarkerSites.compile_markers_from_source. Qed.
+Print Assumptions compile_markers_from_source.
+
